@@ -14,7 +14,7 @@ SpawnPipes(forkOf, adopt) ==
       S("pipe2", <<"r", "w">>, FALSE, {}), S("fork", <<>>, FALSE, forkOf), C("close", {"w"})>>
     \o (IF adopt THEN <<Adopt("r")>> ELSE <<>>) \o <<S("read", <<>>, FALSE, {})>>
 
-Fixed == [
+FixedOnly == [
   unix_connect |-> [steps |-> <<Conv({}), S("socket", <<"a">>, FALSE, {}), S("connect", <<>>, FALSE, {"a"})>>, ret |-> {"a"}],
   unix_bind    |-> [steps |-> <<Conv({}), S("socket", <<"a">>, FALSE, {}), S("bind", <<>>, FALSE, {"a"}), S("listen", <<>>, FALSE, {"a"})>>, ret |-> {"a"}],
   tcp_bind     |-> [steps |-> <<S("socket", <<"a">>, FALSE, {}), S("bind", <<>>, FALSE, {"a"}), S("listen", <<>>, FALSE, {"a"})>>, ret |-> {"a"}],
@@ -26,7 +26,7 @@ Fixed == [
   io_uring_setup |-> [steps |-> <<S("io_uring_setup", <<"a">>, FALSE, {}), S("mmap", <<>>, FALSE, {"a"}), S("mmap", <<>>, FALSE, {"a"})>>, ret |-> {"a"}],
   spawn_pipes  |-> [steps |-> SpawnPipes({"r", "w"}, TRUE), ret |-> {"i2", "o1", "e1"}]
 ]
-Pinned == [
+PinnedOnly == [
   unix_connect |-> [steps |-> <<S("socket", <<"a">>, FALSE, {}), Conv({}), S("connect", <<>>, FALSE, {"a"})>>, ret |-> {"a"}],
   unix_bind    |-> [steps |-> <<S("socket", <<"a">>, FALSE, {}), Conv({}), S("bind", <<>>, FALSE, {"a"}), S("listen", <<>>, FALSE, {"a"}),
                                 S("listen", <<>>, FALSE, {})>>, ret |-> {"a"}],
@@ -39,4 +39,29 @@ Pinned == [
   io_uring_setup |-> [steps |-> <<S("io_uring_setup", <<"a">>, FALSE, {}), S("mmap", <<>>, FALSE, {}), S("mmap", <<>>, FALSE, {})>>, ret |-> {"a"}],
   spawn_pipes  |-> [steps |-> SpawnPipes({}, FALSE), ret |-> {"i2", "o1", "e1"}]
 ]
+
+\* operations whose descriptor handling did not change between the pinned and the fixed tree
+SpawnNoPipes(pre, forkOf, adopt) ==
+    pre \o <<S("pipe2", <<"r", "w">>, FALSE, {}), S("fork", <<>>, FALSE, forkOf), C("close", {"w"})>>
+    \o (IF adopt THEN <<Adopt("r")>> ELSE <<>>) \o <<S("read", <<>>, FALSE, {})>>
+Nulls == <<S("openat", <<"n1">>, TRUE, {}), S("openat", <<"n2">>, TRUE, {}), S("openat", <<"n3">>, TRUE, {})>>
+Common == [
+  tcp_connect  |-> [steps |-> <<S("socket", <<"a">>, FALSE, {}), S("connect", <<>>, FALSE, {"a"}), S("ppoll", <<>>, FALSE, {"a"}),
+                                S("connect", <<>>, FALSE, {"a"})>>, ret |-> {"a"}],
+  tcp_try_connect |-> [steps |-> <<S("socket", <<"a">>, FALSE, {}), S("connect", <<>>, FALSE, {"a"})>>, ret |-> {"a"}],
+  unix_try_connect |-> [steps |-> <<Conv({}), S("socket", <<"a">>, FALSE, {}), S("connect", <<>>, FALSE, {"a"})>>, ret |-> {"a"}],
+  unix_accept  |-> [steps |-> <<S("accept4", <<"a">>, FALSE, {})>>, ret |-> {"a"}],
+  copy_file    |-> [steps |-> <<S("openat", <<"a">>, TRUE, {}), S("newfstatat", <<>>, FALSE, {}), S("openat", <<"b">>, TRUE, {}),
+                                S("copy_file_range", <<>>, FALSE, {})>>, ret |-> {"b"}],
+  file_copy    |-> [steps |-> <<S("newfstatat", <<>>, FALSE, {}), S("openat", <<"b">>, TRUE, {}), S("copy_file_range", <<>>, FALSE, {})>>, ret |-> {"b"}],
+  fs_read      |-> [steps |-> <<S("openat", <<"a">>, TRUE, {}), S("read", <<>>, FALSE, {}), S("read", <<>>, FALSE, {})>>, ret |-> {}],
+  dir_open     |-> [steps |-> <<S("openat", <<"a">>, TRUE, {})>>, ret |-> {"a"}],
+  epoll        |-> [steps |-> <<S("epoll_create1", <<"a">>, TRUE, {}), S("epoll_ctl", <<>>, FALSE, {}), S("epoll_pwait", <<>>, FALSE, {}),
+                                S("epoll_ctl", <<>>, FALSE, {})>>, ret |-> {"a"}]
+]
+Fixed == FixedOnly @@ Common @@ [spawn_inherit |-> [steps |-> SpawnNoPipes(<<>>, {"r", "w"}, TRUE), ret |-> {}],
+                                  spawn_null |-> [steps |-> SpawnNoPipes(Nulls, {"r", "w"}, TRUE), ret |-> {}]]
+Pinned == PinnedOnly @@ [unix_try_connect |-> [steps |-> <<S("socket", <<"a">>, FALSE, {}), Conv({}), S("connect", <<>>, FALSE, {"a"})>>, ret |-> {"a"}]]
+          @@ Common @@ [spawn_inherit |-> [steps |-> SpawnNoPipes(<<>>, {}, FALSE), ret |-> {}],
+                        spawn_null |-> [steps |-> SpawnNoPipes(Nulls, {}, FALSE), ret |-> {}]]
 =============================================================================
